@@ -62,6 +62,36 @@ impl SimDir {
         std::os::unix::fs::symlink(&target, &p).expect("simdir: symlink");
         self.syscalls += 5;
     }
+    /// A sub-directory of the simulated disk whose NAME and the PATH it is reached by are the simulator's choice
+    /// (`style`): the code under test gets `given`, the files physically live under `real` (relative to the root).
+    /// 0 plain; 1 hidden (leading dot); 2 a space in the name; 3 non-ASCII name; 4 named like one of the files it
+    /// holds (`ext`); 5 reached as `<name>/.`; 6 reached through `..`; 7 reached through a symbolic link to the
+    /// directory. Every one of them is an ordinary way to name or reach a directory.
+    pub fn styled_dir(&mut self, name: &str, style: u8, ext: &str) -> (String, PathBuf) {
+        let (real, given): (String, PathBuf) = match style % 8 {
+            1 => (format!(".{name}"), self.root.join(format!(".{name}"))),
+            2 => (format!("{name} dir"), self.root.join(format!("{name} dir"))),
+            3 => (format!("{name}-\u{fc}\u{f1}\u{76ee}"), self.root.join(format!("{name}-\u{fc}\u{f1}\u{76ee}"))),
+            4 => (format!("{name}{ext}"), self.root.join(format!("{name}{ext}"))),
+            5 => (name.to_string(), self.root.join(name).join(".")),
+            6 => {
+                let _ = std::fs::create_dir_all(self.root.join(format!("{name}-side")));
+                (name.to_string(), self.root.join(format!("{name}-side")).join("..").join(name))
+            }
+            7 => {
+                let real = format!("{name}-real");
+                let _ = std::fs::create_dir_all(self.root.join(&real));
+                let link = self.root.join(name);
+                let _ = std::fs::remove_file(&link);
+                std::os::unix::fs::symlink(self.root.join(&real), &link).expect("simdir: symlink to directory");
+                (real, link)
+            }
+            _ => (name.to_string(), self.root.join(name)),
+        };
+        std::fs::create_dir_all(self.root.join(&real)).expect("simdir: mkdir styled");
+        self.syscalls += 2;
+        (real, given)
+    }
     fn store(&self) -> PathBuf {
         let mut name = self.root.file_name().map(|n| n.to_os_string()).unwrap_or_default();
         name.push("-store");
